@@ -473,6 +473,11 @@ def make_v_docs(tier, rng):
 # M + G
 # ---------------------------------------------------------------------------
 
+# a bare URL swallows following non-blank text, a magic word needs word boundaries on both sides
+ADJACENCY_RE = re.compile(r"\bURL (?!SP |NL |VB |DVB |TE |TR |TC |TS |ML |MT |MTN |MA |ME |MN |SPAN|ESPAN|PRE|EPRE)\S"
+                          r"|\b(W|ATTR|URL|MW|MN) MW\b|\bMW (W|ATTR|URL|MN|MW)\b")
+
+
 def spellings(doc):
     prim = "".join(pt.SPELL[c][0] for c in doc)
     alts = []
@@ -510,17 +515,22 @@ def run_g(o: Outcome, cfgs):
         docs += alts
     models = check_batch(o, docs, "G", want_model=frozenset(prim_of))
     drift_by = {}
+    skipped = 0
     for did, ci in prim_of.items():
         c = cases[ci]
         real = models.get(did)
         if real is None:
+            continue
+        if ADJACENCY_RE.search(" ".join(c["doc"]) + " "):
+            skipped += 1          # the spelling runs two chunks together in a way the tokenizer model does not cover
             continue
         if real == pt.model_text(c["tree"]) or ("treeA" in c and real == pt.model_text(c["treeA"])):
             continue
         o.note_drift({"chunks": c["doc"], "text": docs[did], "machine_tree": c["tree"], "real_tree": real})
         key = " ".join(sorted(set(c["doc"])))
         drift_by[key] = drift_by.get(key, 0) + 1
-    o.extra["machine_tree_agreement"] = {"compared": len(prim_of), "differ": o.drift_count}
+    o.extra["machine_tree_agreement"] = {"compared": len(prim_of) - skipped, "differ": o.drift_count,
+                                         "not_compared_spelling_adjacency": skipped}
     mid = cases[len(cases) // 2]
     o.sample({"chunks": mid["doc"], "text": spellings(mid["doc"])[0], "machine_tree": mid["tree"]})
     return cases
